@@ -82,6 +82,8 @@ class Ctx:
         self.analysed_paths = []     # rel paths seen by the _analyze_file recorder
         self.module_state_dirty = builtins.set()
         self.last_live = None        # last renderable handed to the Live display
+        self.read_plan = None        # {"n": k}: the k-th open-for-reading of a tree file fails with EIO
+        self.read_n = 0
 
 
 CTX = Ctx()
@@ -420,6 +422,16 @@ def sim_open(file, mode="r", buffering=-1, encoding=None, errors=None, newline=N
         text = io.TextIOWrapper(io.BufferedWriter(raw), encoding=encoding, errors=errors, newline=newline)
         text.mode = mode
         return text
+    if (CTX.active and CTX.read_plan is not None and isinstance(mode, str) and not _is_write_mode(mode)
+            and not isinstance(file, int) and _under_root(file)):
+        rel = _rel(file)
+        if "/.codelimit_cache/" not in "/" + rel.replace(os.sep, "/") + "/" and os.path.isfile(os.fspath(file)):
+            n = CTX.read_n
+            CTX.read_n = n + 1
+            if n == CTX.read_plan["n"] and CTX.io_fired is None:
+                CTX.io_fired = {"kind": "eio_read", "at": "open_read", "path": rel, "byte": 0, "tick": n}
+                CTX.counters["fault_fired_eio_read"] += 1
+                raise OSError(errno.EIO, "Input/output error (simulated read fault)", os.fspath(file))
     if (isinstance(file, int) or opener is not None or not isinstance(mode, str)
             or not _is_write_mode(mode) or not _under_root(file)):
         return REAL["io.open"](file, mode, buffering, encoding, errors, newline, closefd, opener)
